@@ -11,6 +11,7 @@ tie:   generated histories of tagged / untagged set, incr, decorated calls, dele
 from __future__ import annotations
 
 import json
+import os
 from pathlib import Path
 
 from .. import taghist
@@ -26,7 +27,7 @@ TRUSTED = [
     "Lean 4.33.0 kernel; axioms of every theorem audited to be within {propext, Classical.choice, Quot.sound}",
     "hand-written model lean/CashewsVerif/Model/Tags.lean of cashews/wrapper/tags.py + Memory.set_add/set_remove/set_pop/_delete, tied to the code by this run's history correspondence",
     "the model works on the TTL map (C01) and has no capacity: the property's hypothesis 'store within capacity' is built in (runs use size=100000)",
-    "tag registry abstracted in the main theorems as the function key -> tags; its template/regex layer (cashews/formatter.py template_to_re_pattern, TagsRegistry.get_key_tags) is compared with the harness's own field substitution on every universe key of every case",
+    "tag registry abstracted in the main theorems as the function key -> tags; its template/regex layer (cashews/formatter.py template_to_re_pattern, TagsRegistry.get_key_tags) is modelled relationally in Model/TagTemplates.lean (theorems registry_recovers_fields, registry_tag_is_writers_tag) and compared with the harness's own field substitution on every universe key of every case and on a sweep of random well-separated templates; that Python's re returns *a* match of the modelled relation is trusted",
     "harness: virtual clock (harness/vtime.py), canonicalisation, purge-sweep splicing, raw peeks into Memory.store used only by the oracle and the statistics (harness/taghist.py)",
     "decorator calls: the body is a harness function returning a fresh token; thunder protection is on (default) but calls are sequential",
 ]
@@ -121,6 +122,51 @@ def exhaustive_cases(maxlen: int):
     return out, len(alphabet)
 
 
+def registry_sweep(rng, n: int):
+    """the template layer on its own (theorems registry_recovers_fields / registry_tag_is_writers_tag): random
+    well-separated key templates rendered with separator-free values - the tag the real TagsRegistry derives
+    from the key must be the tag the writer renders from the same values.  Returns (checked, mismatches,
+    ambiguous_tried, ambiguous_differs): the last two sample values that *do* contain a separator (hypothesis
+    violated; counted, not judged)."""
+    from cashews.wrapper.tags import TagsRegistry
+
+    lits = ["k:", "u:", ":p:", ":", "-", "/x/", ":v", "_"]
+    fields = ["a", "b", "c"]
+    vals = ["1", "22", "ab", "Z", "7q", "0"]
+    bad_vals = ["1:2", "a-b", "x_y", ":", "p:"]
+    checked, mism, amb, ambdiff = 0, [], 0, 0
+    for i in range(n):
+        nf = rng.randint(1, 3)
+        fs = rng.sample(fields, nf)
+        key_tpl = rng.choice(lits)
+        for j, f in enumerate(fs):
+            key_tpl += "{" + f + "}"
+            if j < nf - 1 or rng.random() < 0.4:
+                key_tpl += rng.choice(lits)
+        tag_fs = rng.sample(fs, rng.randint(0, nf))
+        tag_tpl = "tg" + "".join(rng.choice([":", "-", ""]) + "{" + f + "}" for f in tag_fs)
+        ambiguous = i % 5 == 4
+        values = {f: rng.choice(vals) for f in fs}
+        if ambiguous:
+            values[rng.choice(fs)] = rng.choice(bad_vals)
+        reg = TagsRegistry()
+        reg.register_tag(tag_tpl, key_tpl)
+        key = key_tpl.format(**values)
+        want = [tag_tpl.format(**values)]
+        try:
+            got = list(reg.get_key_tags(key))
+        except Exception as exc:  # noqa: BLE001
+            got = [f"X:{type(exc).__name__}"]
+        if ambiguous:
+            amb += 1
+            ambdiff += got != want
+        else:
+            checked += 1
+            if got != want:
+                mism.append({"key_template": key_tpl, "tag_template": tag_tpl, "values": values, "key": key, "registry": got, "writer": want})
+    return checked, mism, amb, ambdiff
+
+
 def fails(cfg, layname, ops, want_spec: bool) -> bool:
     try:
         r, answers = run_case(cfg, layname, ops)
@@ -150,7 +196,15 @@ def report(chk: Check, cfg, layname, ops, origin):
     r0, a0 = run_case(cfg, layname, ops)
     _, ds0, _ = compare(r0, a0)
     want_spec = ds0 is not None
-    small = ddmin(ops, lambda o: fails(cfg, layname, o, want_spec))
+    budget = [600 if len(ops) <= 60 else 250]   # shrinking effort is bounded (big:N histories are expensive to re-run)
+
+    def still_fails(o):
+        if budget[0] <= 0:
+            return False
+        budget[0] -= 1
+        return fails(cfg, layname, o, want_spec)
+
+    small = ddmin(ops, still_fails)
     r, answers = run_case(cfg, layname, small)
     # determinism: a reported case must reproduce
     r2, answers2 = run_case(cfg, layname, small)
@@ -196,11 +250,13 @@ def corpus_cases():
 
 def run(chk: Check) -> int:
     proof = proof_stage(PROP, "driver_c12", chk.thorough) if not getattr(chk, "skip_proof", False) else None
-    n = chk.budget(6000, 120000)
+    n = chk.budget(3500, 120000)
     nbig = chk.budget(18, 180)
     nunreg = chk.budget(60, 1200)
     rng = chk.rng
     cases = [("corpus:" + name, cfg, lay, ops) for name, cfg, lay, ops in corpus_cases()]
+    if os.environ.get("VERIF_SKIP_CORPUS"):   # development only: does the generated stream find it on its own?
+        cases = []
     ncorpus = len(cases)
     for i in range(n):
         cfg = CFGS[i % len(CFGS)]
@@ -260,6 +316,14 @@ def run(chk: Check) -> int:
                     break
         if found >= 3:
             break
+    reg_checked, reg_mism, reg_amb, reg_ambdiff = registry_sweep(rng, chk.budget(400, 8000))
+    if reg_mism and found < 3:
+        found += 1
+        chk.violation(
+            f"correspondence broken (registry layer): get_key_tags derives {reg_mism[0]['registry']} from key {reg_mism[0]['key']!r} of template "
+            f"{reg_mism[0]['key_template']!r}, the writer's tag is {reg_mism[0]['writer']} (separator-free values, well separated template)",
+            {"mismatches": reg_mism[:5], "broken": "correspondence TagTemplates model <-> cashews/formatter.py template_to_re_pattern / TagsRegistry.get_key_tags"},
+            signature=None, no_input=True)
     if interesting.get("SET_GONE_WHILE_MEMBER_ALIVE") and not found:
         raise HarnessError("a tag set was gone while a carrier was alive, yet no violation was derived - oracle bug")
     if proof is not None:
@@ -285,6 +349,8 @@ def run(chk: Check) -> int:
         "interesting_states_cases": interesting,
         "unregistered_tag_notes(D21, not judged)": notes,
         "batch_literal_read_from_source": batch(),
+        "registry_layer_sweep": {"well_separated_templates_checked": reg_checked, "mismatches": len(reg_mism),
+                                 "values_with_separator_tried(not judged)": reg_amb, "of_which_registry_tag_differs": reg_ambdiff},
         "trusted_base": TRUSTED,
         "partial": "not sampled: more than 30 commands or 6 keys per history (except the big:N layouts), non-dyadic TTLs, tag values containing ':' "
                    "(the registry's greedy regex may then derive a different tag than the writer used), expire()/set_many on tagged keys (outside the "
